@@ -47,6 +47,12 @@ CHECKS = {
  'C03': ('libx', 'bounded-exhaustive enumeration of every text of <= 5 lines over a directive line alphabet (4 wrappers) and of every shipped file with an only/exclude directive, x all 30 targets, on the real directive.Run, against a line-based reference model',
          'Every (text, target) pair inside the bound is executed on the real code; the distribution/family pair is the build\'s own (one process per DISTRIBUTION). 5 x 10 million runs in the thorough tier.',
          'reference model in engine/gox/cmd/c03x (documented family table, documented paragraph form)', 'DESIGN.md §4 C03'),
+ 'C14': ('libx+mapx', 'bounded-exhaustive enumeration of all log files of <= 4 records over a 17-record alphabet x 3 carriers x 4 filters on the real reader against a list-based reference reader; the real aa-log binary on record pairs x carriers x modes, its --rules output under every single deviation of the owned map-iteration order',
+         'Every log file inside the bound is read by the real code and the reported events compared one by one with the reference reader; rendering is repeated under every map-iteration start; the binary is run end to end (exit status, stdout against the in-process rendering, schedule independence).',
+         'reference reader in engine/gox/cmd/c14x; instrumented runtime for the schedule part', 'DESIGN.md §4 C14'),
+ 'C15': ('libx', 'bounded-exhaustive enumeration of record spellings (field orders, optional field subsets, value classes in kernel and user-space spelling, malformed predecessor records) on the real logs.New, each returned map compared key by key with the construction map',
+         '16 thousand record spellings are pushed through the real reader; the oracle is the construction itself (the harness knows every key and value it wrote).',
+         'kernel spelling rules (audit_log_untrustedstring) as stated in the evidence', 'DESIGN.md §4 C15'),
 }
 PENDING = {}
 def main():
